@@ -263,7 +263,10 @@ class BaseParser(xml.sax.ContentHandler):
 
     def characters_default(self, data):
         key = self._attrs.get("key")
-        self._stack[-1].adddefault(data, self._position, key)
+        # an empty <default/> element has no character data to take a
+        # position from
+        position = self._position or self.get_position()
+        self._stack[-1].adddefault(data, position, key)
 
     def characters_description(self, data):
         if self._stack[-1].description is not None:
